@@ -810,3 +810,104 @@ Proof.
   { unfold s1. rewrite (step_running_eq c p s i Hrun Herr). cbn. repeat split. discriminate. }
   destruct Hs1 as (H1 & H2 & H3). apply trace_shift; try assumption. lia.
 Qed.
+
+(* ------------------------------------------------------------------ statements as used in Properties_C17.v *)
+Lemma doc_step_leapfrog c p x v X fb rnd :
+  p_langevin p = false ->
+  let v' := v + Dt c * (fb - p_k p * (x - X)) / p_m p in
+  doc_step c p x v X fb rnd = (x + Dt c * v', v').
+Proof.
+  intros Hl v'. unfold doc_step, doc_force. rewrite Hl. fold v'. f_equal. field.
+Qed.
+
+Lemma doc_step_langevin c p x v X fb rnd :
+  p_langevin p = true ->
+  let vh := v + Dt c * (fb - p_k p * (x - X)) / p_m p in
+  let v' := exp (- (p_gamma p * Dt c)) * vh + p_sigma p * rnd / p_m p in
+  doc_step c p x v X fb rnd = (x + Dt c / 2 * vh + Dt c / 2 * v', v').
+Proof.
+  intros Hl vh v'. unfold doc_step, doc_force. rewrite Hl. fold vh. fold v'. f_equal. field.
+Qed.
+
+Definition running_nonneg (l : list (@input R)) : Prop :=
+  List.Forall (fun i => i_running i = true /\ (0 <= i_step i)%Z) l.
+
+Lemma trace_inside_fresh c p l :
+  c_lower c <= c_upper c -> wrap_ok c -> running_nonneg l ->
+  List.Forall (fun s' => s_err s' = false) (trace Rops c p (init_state Rops) l) ->
+  List.Forall (fun s' => inside c (s_x_rep s') /\ forall x, s_x_ext s' = Some x -> inside c x)
+              (trace Rops c p (init_state Rops) l).
+Proof. intros Hle Hw Hl He. apply trace_inside; auto. apply okst_init. Qed.
+
+Lemma trace_inside_restart c p x v l :
+  c_lower c <= c_upper c -> wrap_ok c -> inside c x -> running_nonneg l ->
+  List.Forall (fun s' => s_err s' = false) (trace Rops c p (restart_state Rops x v) l) ->
+  List.Forall (fun s' => inside c (s_x_rep s') /\ forall x, s_x_ext s' = Some x -> inside c x)
+              (trace Rops c p (restart_state Rops x v) l).
+Proof. intros Hle Hw Hin Hl He. apply trace_inside; auto. apply okst_restart. exact Hin. Qed.
+
+(* the reported coordinate is inside even at the step that raises the error (first error of a run) *)
+Lemma first_error_reported_inside c p l i :
+  c_lower c <= c_upper c -> wrap_ok c -> running_nonneg (l ++ [i]) ->
+  List.Forall (fun s' => s_err s' = false) (trace Rops c p (init_state Rops) l) ->
+  inside c (s_x_rep (run Rops c p (init_state Rops) (l ++ [i]))).
+Proof.
+  intros Hle Hw Hl He.
+  assert (G : forall l s, okst c s -> running_nonneg (l ++ [i]) ->
+              List.Forall (fun s' => s_err s' = false) (trace Rops c p s l) ->
+              inside c (s_x_rep (run Rops c p s (l ++ [i])))).
+  { clear l Hl He. induction l as [| j r IH]; intros s Hok Hl He.
+    - unfold running_nonneg in Hl. cbn [app] in Hl. destruct (Forall_inv Hl) as [Hrun Hst]. unfold run. cbn [app fold_left].
+      apply (proj1 (step_inside c p s i Hle Hw Hok Hrun Hst)).
+    - unfold running_nonneg in Hl. cbn [app] in Hl. destruct (Forall_inv Hl) as [Hrun Hst]. pose proof (Forall_inv_tail Hl) as Hr.
+      cbn [trace] in He. pose proof (Forall_inv He) as He1. pose proof (Forall_inv_tail He) as Her.
+      unfold run. cbn [app fold_left]. apply IH; auto.
+      apply (proj2 (step_inside c p s j Hle Hw Hok Hrun Hst)). exact He1. }
+  apply G; auto. apply okst_init.
+Qed.
+
+Lemma step_no_error c p s i :
+  i_running i = true -> tsf_error c s i = false ->
+  let xe := fst (props_xv Rops c s i) in let ve := snd (props_xv Rops c s i) in
+  let F := i_fb i / IZR (c_tsf c) + f_spring c p xe (i_x i) in
+  inside c xe ->
+  (c_refl_lo c = true -> c_refl_up c = true ->
+     - (c_upper c - c_lower c) <= arrival c p xe ve F (i_rnd i) - xe <= c_upper c - c_lower c) ->
+  s_err (step Rops c p s i) = false.
+Proof.
+  intros Hrun Herr xe ve F Hin Hd. rewrite (step_running_eq c p s i Hrun Herr). cbn zeta. cbn [s_err].
+  apply integrate_no_error; assumption.
+Qed.
+
+Lemma resume_after_any_history c p l1 i l2 :
+  let s := run Rops c p (init_state Rops) l1 in
+  i_running i = true -> tsf_error c s i = false -> (0 <= i_step i)%Z ->
+  List.Forall (fun j => i_running j = true /\ (i_step i < i_step j)%Z) l2 ->
+  let s1 := step Rops c p s i in
+  trace Rops c p (restart_state Rops (s_x_rep s1) (s_v_rep s1)) (map (shift_input (i_step i)) (i :: l2))
+  = map (shift_state (i_step i)) (trace Rops c p s (i :: l2)).
+Proof.
+  intros s Hrun Herr Hst Hl s1. apply resume_trace; auto.
+  intros Hs. unfold s. rewrite ft_same_step_run by exact Hs. reflexivity.
+Qed.
+
+(* same-step engines: the reported total force is never assigned *)
+Lemma ft_same_step_refuted :
+  exists (c : @config R) (p : @params R) (i : @input R),
+    c_same_step c = true /\ c_subtract c = false /\ i_running i = true /\ tsf_error c (init_state Rops) i = false /\
+    s_ft_rep (step Rops c p (init_state Rops) i) = 0 /\
+    i_fb i / IZR (c_tsf c) + f_spring c p (fst (props_xv Rops c (init_state Rops) i)) (i_x i) = 1.
+Proof.
+  exists (mkConfig 1 1 1 1 0 1 1%Z 0 1 false false 1 None true false), (mkParams 1 1 0 0 false),
+         (mkInput 0%Z (1 / 2) 1 0 0 true).
+  split; [reflexivity | ]. split; [reflexivity | ]. split; [reflexivity | ]. split; [reflexivity | ]. split.
+  - rewrite ft_same_step_unchanged; reflexivity.
+  - rewrite props_first; [ | reflexivity | cbn; lia | reflexivity ].
+    rewrite clamp_free by reflexivity. cbn [fst i_fb i_x c_tsf]. rewrite f_spring_free by reflexivity. cbn [p_k]. field.
+Qed.
+
+Lemma spring_force_gradient (c : @config R) (p : @params R) xe x :
+  c_period c = None ->
+  f_spring c p xe x = - (p_k p * (xe - x)) /\
+  is_derive (fun X => 1 / 2 * p_k p * cv_dist2 Rops c xe X) x (f_spring c p xe x).
+Proof. intros H. split; [exact (f_spring_free c p xe x H) | exact (spring_is_gradient c p xe x H)]. Qed.
